@@ -1655,6 +1655,9 @@ class PseudoNetCDFFile(PseudoNetCDFSelfReg, object):
                     dvar = np.arange(len(dv))
                 if isinstance(df, str):
                     newdl = getattr(dvar[...], df)(keepdims=True).size
+                elif isinstance(df, dict):
+                    dfopts = dict(df)
+                    newdl = dfopts.pop('func1d')(dvar[:], **dfopts).size
                 else:
                     newdl = df(dvar[:]).size
             else:
@@ -1691,7 +1694,7 @@ class PseudoNetCDFFile(PseudoNetCDFSelfReg, object):
                         newvals = getattr(newvals, dfunc)(
                             axis=di, keepdims=True)
                     else:
-                        newvals = np.apply_along_axis(dfunc, di, newvals)
+                        newvals = np.apply_along_axis(**opts)
             newvaro = outf.copyVariable(varo, key=vark, withdata=False)
             newvaro[...] = newvals
         if verbose > 0:
